@@ -77,6 +77,32 @@ def run_one(chk, kind, nfr, prior, calls, uni, how="ctor"):
             shape = c[2] if len(c) > 2 else "list"
             val = ps if shape == "list" else tuple(ps) if shape == "tuple" else (x for x in ps)
             thunk = lambda val=val: setattr(b, "tracks", val)
+        elif c[0] == "assign_self":
+            # the right-hand side is derived from the block ITSELF (a lazy view of its current tracks, optionally dropping
+            # the first one), as in  blk.tracks = (t for t in blk if keep(t))
+            cur = list(api.items_of(kind, b))
+            drop = cur[0] if (cur and c[2]) else None
+            keep = [t for t in cur if t is not drop]
+            ms = [registry[id(t)] for t in keep]
+            mcalls.append([2, ms])
+            how = c[1]
+            import itertools as _it
+            if how == "genexp":
+                val = (t for t in b if t is not drop)
+            elif how == "filter":
+                val = filter(lambda t: t is not drop, b)
+            elif how == "map":
+                val = map(lambda t: t, (t for t in b if t is not drop))
+            elif how == "islice":
+                val = _it.islice(iter(b), 1 if drop is not None else 0, None)
+            elif how == "iter":
+                val = iter(b) if drop is None else (t for t in iter(b) if t is not drop)
+            elif how == "same list":
+                val = b.tracks if drop is None else [t for t in b.tracks if t is not drop]
+            else:
+                val = reversed(list(reversed(b.tracks))) if drop is None else reversed([t for t in reversed(b.tracks) if t is not drop])
+            keep_alive = keep
+            thunk = lambda val=val: setattr(b, "tracks", val)
         else:
             mcalls.append([3])
             thunk = lambda v=c[1]: setattr(b, "tracks", v)
@@ -101,7 +127,8 @@ def run_one(chk, kind, nfr, prior, calls, uni, how="ctor"):
 
 
 def judge(chk, kind, nfr, prior, calls, mtracks, mcalls, obs, mres, how="ctor"):
-    what = {"kind": kind, "nframes": nfr, "frame_count_set_by": how, "prior_tracks": prior, "calls": [list(c[:2]) if c[0] != "assign_bad" else [c[0], repr(c[1])] for c in calls]}
+    what = {"kind": kind, "nframes": nfr, "frame_count_set_by": how, "prior_tracks": prior,
+            "calls": [list(c[:2]) if c[0] not in ("assign_bad", "assign_self") else [c[0], repr(c[1:])] for c in calls]}
     for j, (c, (rc, tracks, same, lens), m) in enumerate(zip(calls, obs, mres)):
         # oracle
         found = None
@@ -113,8 +140,10 @@ def judge(chk, kind, nfr, prior, calls, mtracks, mcalls, obs, mres, how="ctor"):
             found = "adding a %s object was accepted" % c[1]
         elif rc is not None and not same:
             found = "%s raised %s but the block's tracks changed" % (c[0], rc)
-        elif c[0] == "assign" and rc is None and [t[1] for t in tracks] != [x[1] for x in mcalls[j][1]]:
-            found = "the assignment did not install exactly the given list"
+        elif c[0] in ("assign", "assign_self") and rc is None and [t[1] for t in tracks] != [x[1] for x in mcalls[j][1]]:
+            found = "the assignment did not install exactly the given list" + (" (a %s over the block's own tracks)" % c[1] if c[0] == "assign_self" else "")
+        elif c[0] == "assign_self" and rc is not None:
+            found = "assigning a %s over the block's own (valid) tracks raised %s" % (c[1], rc)
         elif c[0] == "assign" and rc is None and any(n != "good" for n in c[1]):
             found = "a list with an invalid element (%r) was accepted" % (c[1],)
         elif c[0] == "assign_bad" and rc is None:
@@ -148,6 +177,8 @@ def run(chk):
                 single += [("assign", ["good", "good"], "tuple"), ("assign", ["good", "short"], "generator"),
                            ("assign", ["good", "good", "good"], "generator")]
                 single += [("assign_bad", 5), ("assign_bad", None), ("assign_bad", 2.5)]
+                single += [("assign_self", how, drop) for how in ("genexp", "filter", "map", "islice", "iter", "same list", "reversed")
+                           for drop in (False, True)]
             L = 2 if chk.tier == "quick" else 3
             for prior in (0, 2):
                 for l in range(1, L + 1):
@@ -161,7 +192,7 @@ def run(chk):
                 "assignment on 3D-marker, force/torque and EMG blocks (frame counts 1-9, given to the constructor or assigned to the still-empty block; 0 or 2 prior tracks); the objects: a "
                 "track of the right length, one frame short, one frame long, empty, an int, None, a str, a track of another "
                 "class, at every position of lists of length 0-3 (as list, tuple and generator), and non-iterable right-hand "
-                "sides; observed after each call: exception class, identity and frame counts of block.tracks; non-trivial = "
+                "sides, and right-hand sides derived lazily from the block's own tracks (generator expression, filter, map, islice, iter, the list itself, reversed); observed after each call: exception class, identity and frame counts of block.tracks; non-trivial = "
                 "contains an invalid object")
     runs, done = [], []
     for kind, nfr, prior, seq, uni, how in jobs:
@@ -175,7 +206,7 @@ def run(chk):
     jobs = done
     mres = common.run_model_sharded([(41, [nfr, mt, mc]) for (kind, nfr, prior, seq, uni, how), (mt, mc, obs) in zip(jobs, runs)])
     for (kind, nfr, prior, seq, uni, how), (mt, mc, obs), m in zip(jobs, runs, mres):
-        flat = [n for c in seq for n in ([c[1].split("@")[0]] if c[0] == "add" else c[1] if c[0] == "assign" else ["bad"])]
+        flat = [n for c in seq for n in ([c[1].split("@")[0]] if c[0] == "add" else c[1] if c[0] == "assign" else ["good"] if c[0] == "assign_self" else ["bad"])]
         chk.note_case((kind, nfr, prior, repr(seq), how), any(n != "good" for n in flat))
         chk.count("%s %s" % (kind, "+".join(c[0] for c in seq)))
         chk.count("frame count given by the constructor" if how == "ctor" else "frame count assigned to the empty block afterwards")
